@@ -6,7 +6,7 @@
    (b) a VERIFIED VALIDATOR applied to the parsed emitted text of every sampled model (sound for all inputs and word sizes),
        which does not depend on the generator model at all. *)
 From Coq Require Import String ZArith List Bool Arith.
-From TLX Require Import Model.Bits Model.CLang Model.Netlist Model.ConvNet Model.Wrapper Model.Host Model.Validate Model.GenNet.
+From TLX Require Import Model.Bits Model.CLang Model.Netlist Model.ConvNet Model.Wrapper Model.Host Model.Validate Model.GenNet Model.GenStream.
 From TLX Require Import Proofs.CLangFacts Proofs.ValidateFacts Proofs.WrapperFacts Proofs.HostFacts Proofs.C02Facts Proofs.C04Facts Proofs.GenNetFacts Proofs.PoolFacts.
 From TLX Require Import Gen.GateCode.
 Import ListNotations.
@@ -64,6 +64,16 @@ Theorem C02_net_counts : forall (W k : nat) m rows,
   = Some (map (per_row (net_out m) k (eval_model m)) rows).
 Proof. exact net_counts. Qed.
 
+(* the same for a PARSED program that the streaming comparison (Model/GenStream.v, evaluated in the kernel on the emitted text of the
+   library's predefined architectures) accepts: the statement is about the parsed text itself *)
+Theorem C02_emitted_counts : forall (W k : nat) p m rows,
+  gen_net_matchesN p m = true ->
+  (1 < W)%nat -> wf_spatial_model m = true -> Z.of_nat (gsize (net_out m) k) < 2 ^ 31 ->
+  Forall (fun r => length r = net_in m) rows ->
+  forward_with_groupsum W (net_in m) (net_out m) k (execZ (Z.of_nat W) (to_prog p)) rows
+  = Some (map (per_row (net_out m) k (eval_model m)) rows).
+Proof. exact emitted_counts. Qed.
+
 (* without GroupSum *)
 Theorem C02_net_direct : forall (W : nat) m rows,
   (1 < W)%nat -> wf_spatial_model m = true -> Forall (fun r => length r = net_in m) rows ->
@@ -94,4 +104,5 @@ Eval compute in "PA:C02_logic_net"%string. Print Assumptions C02_logic_net.
 Eval compute in "PA:C02_pool_wf"%string. Print Assumptions C02_pool_wf.
 Eval compute in "PA:C02_reference"%string. Print Assumptions C02_reference.
 Eval compute in "PA:C02_net_counts"%string. Print Assumptions C02_net_counts.
+Eval compute in "PA:C02_emitted_counts"%string. Print Assumptions C02_emitted_counts.
 Eval compute in "PA:C02_net_direct"%string. Print Assumptions C02_net_direct.
